@@ -248,6 +248,8 @@ class Facts:
         self.capfree = m.capture_buffers == 0
         self.body_execs = m.body_execs
         self.has_break = any(_BREAK.search(s) for s in sources(case))
+        # loop activations left early (fewer bodies than the declared length)
+        self.interrupted = list(m.interrupted)
         self.P = self.Ub  # refined by the far-above-consumption run
         if case.get("marks") and self.capfree:
             marks = sum(self.U.count(ch) for ch in G.MARKS)
@@ -375,9 +377,15 @@ def judge_loop(rn: Runner, f: Facts, L: int, mode: str) -> list[tuple[str, str, 
     elif r.status == "err" and r.err == ERR_FOR["loop"]:
         ctx.seen("limit_error_classes", r.err)
         ctx.count("limited_hit")
-        if L >= f.M and not f.has_break:
-            out.append(("loop-limit:error-though-within",
-                        f"largest product of nested loop lengths is {f.M} <= limit {L}, render raised {r.err}", ex))
+        if L >= f.M:
+            # M counts every loop with its declared length (a loop left early included), which
+            # is the most the engine's documented up-front count can reach in this program
+            key = "loop-limit:error-though-within"
+            what = f"largest product of declared nested loop lengths is {f.M} <= limit {L}, render raised {r.err}"
+            if f.interrupted:
+                key += ":after-interrupted-loop"
+                what += f"; loops left early in this program: {sorted(set(f.interrupted))}"
+            out.append((key, what, ex))
     else:
         out.append((f"loop-limit:unexpected-outcome:{r.err or r.status}",
                     f"unrestricted render succeeds, under loop limit {L}: {r.status} {r.err} {r.msg}", ex))
@@ -444,7 +452,7 @@ def limit_values(kind: str, f: Facts, rng: random.Random) -> tuple[list[int], bo
     if kind == "loop":
         if f.C < 1:
             return [], False
-        vals = {f.C - 1, f.C, f.C + 1, f.M - 1, f.M, f.M + 1, rng.randint(1, f.C)}
+        vals = {f.C - 1, f.C, f.C + 1, f.M - 1, f.M, f.M + 1, 3 * f.M, rng.randint(1, f.C)}
         return sorted(v for v in vals if v >= 1), f.C >= 2
     if kind == "ns":
         if f.N < 1:
@@ -511,13 +519,22 @@ def check_case(rn: Runner, case: dict[str, Any], rng: random.Random, kinds: tupl
             ctx.count("programs_with_multibyte_output")
         for k in f.res.mon.max_chain_kinds if f.res.mon else ():
             ctx.seen("nest_constructs", k)
+        if f.interrupted:
+            ctx.count("programs_with_interrupted_loop")
+            for k in set(f.interrupted):
+                ctx.seen("interrupted_constructs", k)
+            if any(k.startswith("include") for k in f.interrupted):
+                ctx.count("programs_with_interrupted_include_loop")
+            if f.M > f.C:
+                ctx.count("programs_declared_product_above_executed")
     for kind in ("out", "loop", "ns"):
         if kind not in kinds:
             continue
         vals, triple = limit_values(kind, f, rng)
         for L in vals:
             for mode in modes:
-                if mode == "async" and not (abs(L - {"out": f.Ub, "loop": f.C, "ns": f.N}[kind]) <= 1):
+                if mode == "async" and not (abs(L - {"out": f.Ub, "loop": f.C, "ns": f.N}[kind]) <= 1
+                                            or (kind == "loop" and abs(L - f.M) <= 1)):
                     continue
                 for key, what, ex in JUDGES[kind](rn, f, L, mode):
                     ex["ref"] = nearest_ref(kind, f, L)
@@ -599,9 +616,11 @@ def minimise(rn: Runner, prog: dict[str, Any], cls: str, ex: dict[str, Any]):
 def shards(tier: str, seed: int) -> list[dict[str, Any]]:
     # (kind, number of shards, cases per shard); thorough = 20 x the quick volume
     if tier == "quick":
-        plan = [("nest", 12, 64), ("ns", 6, 34), ("out", 6, 34), ("shared", 2, 90), ("cycle", 2, 260), ("chain", 2, 170)]
+        plan = [("nest", 12, 58), ("ns", 6, 32), ("out", 6, 32), ("intr", 4, 45), ("shared", 2, 90), ("cycle", 2, 260),
+                ("chain", 2, 170)]
     else:
-        plan = [("nest", 24, 640), ("ns", 6, 680), ("out", 6, 680), ("shared", 4, 900), ("cycle", 4, 2600), ("chain", 4, 1700)]
+        plan = [("nest", 24, 580), ("ns", 6, 640), ("out", 6, 640), ("intr", 6, 600), ("shared", 4, 900),
+                ("cycle", 4, 2600), ("chain", 4, 1700)]
     specs: list[dict[str, Any]] = []
     for kind, n, per in plan:
         for i in range(n):
@@ -619,6 +638,8 @@ def floors(tier: str) -> dict[str, int]:
         "triples_namespace": 300 * k,
         "triples_depth": 300 * k,
         "cross_partial_nests": 100 * k,
+        "programs_with_interrupted_include_loop": 60 * k,
+        "intr_loop_limit_at_product_ok": 100 * k,
         "cycles_terminated": 400 * k,
         "write_hook_hits": 10_000 * k,
         "assign_hook_hits": 5_000 * k,
@@ -635,6 +656,8 @@ def run_shard(spec: dict[str, Any], ctx: Ctx) -> None:
         kind = spec["kind"]
         if kind in G.PROFILES:
             _nests(rn, spec, kind)
+        elif kind == "intr":
+            _interrupts(rn, spec)
         elif kind == "shared":
             _shared(rn, spec)
         elif kind == "cycle":
@@ -663,6 +686,30 @@ def _nests(rn: Runner, spec: dict[str, Any], profile: str) -> None:
             f = Facts(rn, case)
             ctx.sample({"kind": profile, "root": case["root"], "partials": case["partials"], "data": case["data"],
                         "unrestricted": {"bytes": f.Ub, "nest_count": f.C, "product": f.M, "namespace_peak": f.N}})
+
+
+def _interrupts(rn: Runner, spec: dict[str, Any]) -> None:
+    """Loops left early by break / continue travelling out of included partials, followed
+    by further loops on the same context (see c06_gen.IntrGen)."""
+    ctx = rn.ctx
+    for j in range(spec["per"]):
+        rng = random.Random(f"{spec['seed']}:intr:{spec['i']}:{j}")
+        prog = G.IntrGen(rng, cr=rng.random() < 0.3).program()
+        case = G.emit(prog)
+        case["marks"] = True
+        found = check_case(rn, case, rng, modes=("sync", "async") if j % 2 == 0 else ("sync",))
+        if found is None:
+            continue
+        ctx.count("intr_programs")
+        f = Facts(rn, case)
+        if f.ok and f.interrupted and not any(k.startswith("loop-limit:error-though-within") for k, _, _ in found):
+            # the renders at L = M, M+1 and 3M of a program with an interrupted loop succeeded
+            ctx.count("intr_loop_limit_at_product_ok")
+        if found:
+            report(rn, prog, case, found, [str(spec["seed"]), "intr", spec["i"], j])
+        if j % 23 == 0:
+            ctx.sample({"kind": "intr", "root": case["root"], "partials": case["partials"], "data": case["data"],
+                        "unrestricted": {"nest_count": f.C, "product": f.M, "left_early": sorted(set(f.interrupted))}})
 
 
 def _shared(rn: Runner, spec: dict[str, Any]) -> None:
@@ -892,7 +939,7 @@ def replay(wit: dict[str, Any], ctx: Ctx) -> None:
                 if kind == "all-huge" and mode == "async":
                     found += judge_huge(rn, f, "async")
                 print(f"  consumption: bytes={f.Ub} capture_peak={f.P} nest_count={f.C} product={f.M} "
-                      f"namespace_peak={f.N} has_break={f.has_break}")
+                      f"namespace_peak={f.N} has_break={f.has_break} left_early={sorted(set(f.interrupted))}")
                 if kind in JUDGES:
                     r = rn.run(case, {kind: L}, mode)
                     print(f"  limited ({ATTR[kind]}={L}):", r.view())
